@@ -5,20 +5,20 @@ From Discv5V Require Import Model.Handler Proofs.HandlerB_Base Proofs.HandlerB_F
 Import ListNotations.
 Local Open Scope N_scope.
 
-Lemma active_sess_get h na : active (fst (sess_get h na)) = active h.
-Proof. unfold sess_get. destruct (alist_get na (sessions h)); reflexivity. Qed.
+Lemma active_sess_get c h na : active (fst (sess_get c h na)) = active h.
+Proof. apply (sess_get_frame c h na). Qed.
 Lemma active_push_pending h na q : active (push_pending h na q) = active h.
 Proof. unfold push_pending. destruct (alist_get na (pending h)); reflexivity. Qed.
 
-Lemma JJ_sess_get hist G s na : JJ hist G s -> JJ hist G (with_hs s (fst (sess_get (hs s) na))).
+Lemma JJ_sess_get hist G c s na : JJ hist G s -> JJ hist G (with_hs s (fst (sess_get c (hs s) na))).
 Proof.
   intros HJ. apply JJ_with_hs_QH; [exact HJ | apply QH_sess_get | apply ActSubP_same; apply active_sess_get].
 Qed.
 
-Lemma JP_is_awaiting s na : JP s (fst (is_awaiting_session s na)).
+Lemma JP_is_awaiting c s na : JP s (fst (is_awaiting_session c s na)).
 Proof.
-  intros hist G HJ. unfold is_awaiting_session. pose proof (JJ_sess_get hist G s na HJ) as H.
-  destruct (sess_get (hs s) na) as [h se]. cbn [fst] in H. destruct se; exact H.
+  intros hist G HJ. unfold is_awaiting_session. pose proof (JJ_sess_get hist G c s na HJ) as H.
+  destruct (sess_get c (hs s) na) as [h se]. cbn [fst] in H. destruct se; exact H.
 Qed.
 
 (* encrypt under the session of [na], store it, then any state change that keeps the sessions and adds
@@ -40,13 +40,13 @@ Proof.
   intros hist G HJ. unfold send_request.
   destruct (existsb (N.eqb (c_addr ct)) (cfg_listen c)); [exact HJ |].
   set (na := c_naddr ct).
-  assert (Ha : JJ hist G (fst (if has_challenge (hs s) na then (s, true) else is_awaiting_session s na))).
+  assert (Ha : JJ hist G (fst (if has_challenge (hs s) na then (s, true) else is_awaiting_session c s na))).
   { destruct (has_challenge (hs s) na); [exact HJ | apply JP_is_awaiting; exact HJ]. }
-  destruct (if has_challenge (hs s) na then (s, true) else is_awaiting_session s na) as [s1 awaiting].
+  destruct (if has_challenge (hs s) na then (s, true) else is_awaiting_session c s na) as [s1 awaiting].
   cbn [fst] in Ha. destruct awaiting; cbn [fst].
   - apply JJ_with_hs_QH; [exact Ha | apply QH_push_pending | apply ActSubP_same; apply active_push_pending].
-  - pose proof (JJ_sess_get hist G s1 na Ha) as Hg. pose proof (sess_get_got (hs s1) na) as Hgot.
-    destruct (sess_get (hs s1) na) as [h2 se]. cbn [fst snd] in Hg, Hgot.
+  - pose proof (JJ_sess_get hist G c s1 na Ha) as Hg. pose proof (sess_get_got c (hs s1) na) as Hgot.
+    destruct (sess_get c (hs s1) na) as [h2 se]. cbn [fst snd] in Hg, Hgot.
     destruct se as [se |].
     + rewrite encrypt_message_eq. cbn [fst]. unfold JJ.
       eapply (JJ_encrypt_send hist G (with_hs s1 h2) h2 na se na (cfg_local c) _ _ _);
@@ -84,8 +84,10 @@ Qed.
 Lemma ActSub_fail_session H c s na err rm : ActSubP H (hs s) (hs (fail_session c s na err rm)).
 Proof.
   unfold fail_session.
-  set (s1 := if rm then with_hs s (sess_remove (hs s) na) else s).
-  assert (E1 : active (hs s1) = active (hs s)) by (unfold s1; destruct rm; reflexivity).
+  set (s1 := if rm then with_hs (remove_expired_sessions c s) (sess_remove (hs (remove_expired_sessions c s)) na) else s).
+  assert (E1 : active (hs s1) = active (hs s)).
+  { unfold s1. destruct rm; [| reflexivity]. cbn [hs with_hs sess_remove active set_sessions].
+    destruct (remove_expired_sessions_hs c s) as [E | E]; rewrite E; reflexivity. }
   set (s2 := match alist_get na (pending (hs s1)) with Some l => _ | None => s1 end).
   assert (E2 : active (hs s2) = active (hs s1)).
   { unfold s2. destruct (alist_get na (pending (hs s1))) as [l |]; [| reflexivity].
@@ -180,9 +182,9 @@ Qed.
 Lemma JP_replay c s na skip now : JP s (replay_active_requests c s na skip now).
 Proof.
   intros hist G HJ. unfold replay_active_requests.
-  pose proof (JJ_sess_get hist G s na HJ) as Hg. pose proof (sess_get_got (hs s) na) as Hgot.
-  destruct (sess_get (hs s) na) as [h1 se]. cbn [fst snd] in Hg, Hgot.
-  destruct se as [se0 |]; [| exact HJ].
+  pose proof (JJ_sess_get hist G c s na HJ) as Hg. pose proof (sess_get_got c (hs s) na) as Hgot.
+  destruct (sess_get c (hs s) na) as [h1 se]. cbn [fst snd] in Hg, Hgot.
+  destruct se as [se0 |]; [| exact Hg].
   set (reqs := filter _ _).
   pose proof (replay_fold1_J c na na reqs (with_hs s h1) se0 [] _ G h1 Hg (Hgot _ eq_refl)) as Hf.
   cbn zeta in Hf.
@@ -214,9 +216,9 @@ Qed.
 Lemma JP_send_response c s na rid rb : JP s (send_response c s na rid rb).
 Proof.
   intros hist G HJ. unfold send_response.
-  pose proof (JJ_sess_get hist G s na HJ) as Hg. pose proof (sess_get_got (hs s) na) as Hgot.
-  destruct (sess_get (hs s) na) as [h1 se]. cbn [fst snd] in Hg, Hgot.
-  destruct se as [se |]; [| exact HJ].
+  pose proof (JJ_sess_get hist G c s na HJ) as Hg. pose proof (sess_get_got c (hs s) na) as Hgot.
+  destruct (sess_get c (hs s) na) as [h1 se]. cbn [fst snd] in Hg, Hgot.
+  destruct se as [se |]; [| exact Hg].
   rewrite encrypt_message_eq. unfold JJ.
   eapply (JJ_encrypt_send hist G (with_hs s h1) h1 na se na (cfg_local c) _ _ _);
     [exact Hg | apply Hgot; reflexivity | reflexivity | reflexivity |].
@@ -299,9 +301,9 @@ Qed.
 Lemma JP_handle_message c s na n aad ct now : JP s (handle_message c s na n aad ct now).
 Proof.
   intros hist G HJ. unfold handle_message.
-  pose proof (JJ_sess_get hist G s na HJ) as Hg. pose proof (sess_get_got (hs s) na) as Hgot.
-  destruct (sess_get (hs s) na) as [h1 se]. cbn [fst snd] in Hg, Hgot.
-  destruct se as [se |]; [| apply JJ_emit_event; exact HJ].
+  pose proof (JJ_sess_get hist G c s na HJ) as Hg. pose proof (sess_get_got c (hs s) na) as Hgot.
+  destruct (sess_get c (hs s) na) as [h1 se]. cbn [fst snd] in Hg, Hgot.
+  destruct se as [se |]; [| apply JJ_emit_event; exact Hg].
   pose proof (decrypt_message_desc se n aad ct) as Hd.
   destruct (decrypt_message se n aad ct) as [se' m]. cbn [fst] in Hd.
   set (s2 := with_hs (with_hs s h1) (sess_put (hs (with_hs s h1)) na se')).
@@ -316,7 +318,7 @@ Proof.
     destruct (s_await se') as [arid |]; [| exact Hresp].
     destruct (N.eqb rid arid); [| exact Hresp].
     set (se'' := {| s_enc := s_enc se'; s_dec := s_dec se'; s_old := s_old se'; s_await := None;
-                    s_counter := s_counter se' |}).
+                    s_counter := s_counter se'; s_used := s_used se' |}).
     set (s3a := with_hs s2 (sess_put (hs s2) na se'')).
     assert (H3a : JJ hist G s3a).
     { apply JJ_with_hs_QH; [exact H2 | | apply ActSubP_same; reflexivity].
